@@ -118,6 +118,8 @@ def part_corr(ctx, jobs, res, atts, only=None):
             preds[(p, tr)] = [cr.split_obs(v) for v in cr.model_predict(scen_sets[p], p, tr, f"c09m_{int(p)}{int(tr)}")]
             cpreds[(p, tr)] = [cr.split_obs(v) for v in coqrun.eval_zlists(
                 "From Verif Require Import C09.Lock.\n", [cr.ctor_model_expr(s, p, tr) for s in ctor_sets[p]], f"c09c_{int(p)}{int(tr)}", shard=10)]
+    import time as _t
+    ctx.log(f'model predictions at {_t.time() - ctx.t0:.0f}s')
     n_eval = n_nontrivial = n_oracle = n_mismatch = 0
     dist = {}
     found_input = False
@@ -183,13 +185,18 @@ def run(ctx):
         d = rec.get("detail", {})
         if "scenario" in d:
             only = {"config": d["config"], "scenario": d["scenario"], "pragma_style": d["pragma_style"]}
+    import time as _t
     pending = part_proofs(ctx)
+    ctx.log(f"proofs + template tie at {_t.time() - ctx.t0:.0f}s")
     cfgs = configs.configs(ctx.tier)
     if only:
         cfgs = [c for c in cfgs if c.name == only["config"]] or cfgs
     jobs, res, atts = build_all(ctx, cfgs)
+    ctx.log(f"compiled at {_t.time() - ctx.t0:.0f}s")
     exit_fail = part_exits(ctx, jobs, res)
+    ctx.log(f"exit check at {_t.time() - ctx.t0:.0f}s")
     found, n_or, n_mis = part_corr(ctx, jobs, res, atts, only)
+    ctx.log(f"correspondence at {_t.time() - ctx.t0:.0f}s")
     # verdicts for proof / placement breaks: Search = the correspondence above
     if pending is not None and not found:
         ctx.violation(pending["kind"], pending["name"], pending["detail"])
